@@ -50,3 +50,18 @@ Print Assumptions C06_never_surfaces_an_earlier_error.
 Theorem C06_source_facts : idle_death_reported_once = true /\ apply_mode_reset_per_task = true /\ start_workers_resets = true.
 Proof. exact (conj idle_death_spec (conj apply_mode_spec start_workers_resets_spec)). Qed.
 Print Assumptions C06_source_facts.
+
+(* (6) the same after a failure of the APPLY phase that stops the workers (worker_init / worker_exit raising or timing out
+   while apply tasks are served; the error sits in a permanent result object and no map call is around to clean up):
+   the next map call and the next apply_async clean up before they look at the workers (statements read off
+   imap_unordered and apply_async), so every later history behaves as on a fresh pool *)
+Theorem C06_post_apply_failure_fresh :
+  forall (l : layout) (keep : bool) (before : list hop) (mp : mparams) (later : list hop),
+  let s := fst (hstep (hstate (hinit l keep) before) (HApplyFails mp)) in
+  map strip (hrun s later) = map strip (hrun (hinit (p_layout s) (p_keep_alive s)) later).
+Proof. exact post_apply_failure_fresh. Qed.
+Print Assumptions C06_post_apply_failure_fresh.
+
+Theorem C06_apply_failure_fact : apply_phase_failure_cleaned_up = true.
+Proof. exact apply_cleanup_spec. Qed.
+Print Assumptions C06_apply_failure_fact.
